@@ -2,7 +2,7 @@
 """Run checks against a patched scratch worktree of /repo (never touches /repo itself).
 
 usage: tools/mutate.py <patch.diff | ->  CNN [CNN ...] [-- extra check args]
-       a python snippet can be given instead of a patch with  --sed 'file::old::new'
+       a python snippet can be given instead of a patch with  --sed "file@@old@@new"
 Prints, per check, CAUGHT (exit 1 + VIOLATION), MISSED (exit 0) or ERROR (other).
 """
 import os
@@ -54,7 +54,7 @@ def main():
                 print("REVERT-FAILED", c, r.stderr)
                 return 3
         for sed in seds:
-            f, old, new = sed.split("::")
+            f, old, new = sed.split("@@")
             p = os.path.join(wt, f)
             s = open(p).read()
             if s.count(old) < 1:
